@@ -751,6 +751,8 @@ def run(repo: Repo, rep: Report) -> None:
     from . import z3m
 
     z3m.check_posting(repo, rep)
+    # the z3 route's backend (anchored here too): bounds, read-back, verdict, every posted constraint - constants included - asserted
+    z3m.check_z3_backend(repo, rep)
     sem_ok = check_semantics(repo, rep, rep.tier)
     sem_found = any(f.rule == "REF-E" for f in rep.findings)
     cap = _Capture(rep)
